@@ -345,6 +345,12 @@ func (dm *DMap) putOnCluster(e *env) error {
 }
 
 func (dm *DMap) writePutCommand(e *env) (*redis.StatusCmd, error) {
+	if e.putConfig.OnlyUpdateTTL {
+		// This is an Expire call. It only updates the TTL of the key. Redirecting it as
+		// a Put command would overwrite the value with an empty one.
+		return protocol.NewPExpire(e.dmap, e.key, e.timeout).Command(dm.s.ctx), nil
+	}
+
 	cmd := protocol.NewPut(e.dmap, e.key, e.value)
 	switch {
 	case e.putConfig.HasEX:
